@@ -611,6 +611,10 @@ pub fn run(ctx: &RunCtx) -> i32 {
     let sch = schema();
     let mut total = par_run(ctx.workers, n_types, |j, r| {
         let t = &types[j as usize];
+        // sanitizer legs take a seed-dependent sample of the types
+        if scale_div() > 1 && derive_seed(ctx.seed, "C13/sample", j) % 12 != 0 {
+            return;
+        }
         let mut g = Rng::new(derive_seed(ctx.seed, "C13", j));
         r.observe("types", t.name);
         roundtrip(r, t, 0, Presence::Minimal);
@@ -634,6 +638,9 @@ pub fn run(ctx: &RunCtx) -> i32 {
     let ser_only = xml_ser_only_types();
     for t in &ser_only {
         for i in 0..reps {
+            if scale_div() > 1 && derive_seed(ctx.seed, t.name, 99) % 12 != 0 {
+                continue;
+            }
             let mut g = mk_gen(derive_seed(ctx.seed, t.name, i), if i % 2 == 0 { Presence::Full } else { Presence::Random(1, 2) });
             match guarded(|| (t.encode)(&mut g)) {
                 Err(p) => total.violated(format!("C13/encode-panic/{}", t.name), json!({"kind": "ser-only", "type": t.name, "panic": p})),
